@@ -89,6 +89,10 @@ def _analyse(ctx, R, name, partial_parser=False, request=False):
                 bad.append("consumed count %r is not the tokeniser's Complete(n)" % (n,))
         if cls == "complete" and not partial_parser and rs == "Ok(None)":
             bad.append("a complete head yields need-more")
+        if cls == "?":
+            # an answer that was not derived from the tokeniser's verdict on the offered input (pre-filter, length
+            # test, remembered scan): need-more / errors / messages must all come from the parse
+            bad.append("%s is answered without asking the tokeniser (a pre-check decides)" % rs[:30])
     for need in ("too-many", "parse-error") + (() if partial_parser else ("complete", "partial",)):
         if need not in seen:
             bad.append("verdict class %s never reached" % need)
